@@ -124,6 +124,22 @@ def bounds(tier):
             'read_buffer': 1024, 'daemon_events': bound(tier, Scenario('io', E=1)), 'generations_for_fd_count': 50}
 
 
+class BadSet(object):
+    def __init__(self, path):
+        self.path = path
+        self.label = 'set(a.stdout_stream.filename=<missing dir>)'
+
+    def apply(self, world):
+        world.bad_set_done = True
+        rq = world.request('set', name='a', options={'stdout_stream.filename': self.path})
+        # whatever the answer, the file name the watcher was configured with is A.log again for what follows
+        try:
+            world.watcher('a').stdout_stream_conf['filename'] = world.fs_a_path
+        except Exception:
+            pass
+        return rq
+
+
 class Collector(object):
     def __init__(self, channel, log):
         self.channel = channel
@@ -159,6 +175,7 @@ def run(scn, ch):
                              stdout_stream={'stream': Collector('stdout', log)})],
                   check_delay=scn.p.get('tick', 1.0))
     written = {}
+    world.fs_a_path = scratch.path('A.log') if fs else None
 
     def extra(world):
         evs = [Req('incr', name='a'), Req('decr', name='a'), Req('restart', label='restart(b)', name='b'),
@@ -167,6 +184,9 @@ def run(scn, ch):
         if fs:
             evs[-1] = Req('set', label='set(a.stdout_stream.filename)', name='a',
                           options={'stdout_stream.filename': scratch.path('B.log')})
+            # ... and one that cannot be carried out (the directory does not exist): refused, the stream in place stays
+            if not getattr(world, 'bad_set_done', False):
+                evs.append(BadSet(scratch.path('no-such-dir/x.log')))
         ws = sorted(world.watcher('a').processes) if world.watcher('a') else []
         if len(ws) >= 2:
             evs.append(Req('kill', label='kill(sibling)', name='a', pid=ws[1]))
